@@ -619,7 +619,9 @@ func (r *run) cgLoop(m *member, fns, early, earlyMs, lingerMs int) {
 
 // Run executes one scenario and returns its trace.
 func Run(sc *Script) []trace.Event {
-	r := &run{sc: sc, rec: trace.New(), net: fakenet.NewNet(), members: map[int]*member{}, byObj: map[interface{}]int{},
+	rec0 := trace.New()
+	rec0.Cap, rec0.Always = 60000, map[string]bool{"end": true, "hang": true, "close.call": true, "close.return": true}
+	r := &run{sc: sc, rec: rec0, net: fakenet.NewNet(), members: map[int]*member{}, byObj: map[interface{}]int{},
 		inject: map[string][]injection{}, counts: map[string]int{}, gates: map[string]chan struct{}{}, arrived: map[string]chan struct{}{}, lastFetch: map[string]time.Time{}}
 	r.net.Name = fmt.Sprintf("g%d", atomic.AddInt64(&counter, 1))
 	r.cl = fakekafka.NewCluster(r.net, 2)
